@@ -38,6 +38,17 @@ CHECKS = {
   text="About 0.8 M enumerated (opcode, stack) cases per run over an 18-value alphabet and every conditional shape, plus tens of thousands of random nested programs; after each Iterator::next the library's main and alt stacks must equal the reference model's and errors must occur at exactly the model's failing step. Exploration with an explicit reference model is the level the property asks for (it names the bounded-exhaustive space itself).",
   note="Trusted: refimpl::interp_model (written from the semantics table in DESIGN Appendix A without reading the library; 409 hand-computed rows), refimpl::hashes. Not asserted: 2MUL/2DIV, CLTV/CSV, reserved codes, VERIF/VERNOTIF, CHECKSIG family, index operands > 4 bytes.",
   ref="DESIGN.md §3 C14, Appendix A"),
+ "C15": dict(
+  technique="property-based testing (proptest) of signed spends with single-field mutations; accept/reject predicted by a reference ECDSA verifier over reference sighash preimages (differential oracle)",
+  text="Spends of the P2PK/P2PKH/m-of-n families with code separators, all twelve flags and any declared value are assembled and signed through the library's API, optionally mutated in one of seventeen ways (transaction fields, value, key, r, s, flag, order, count, foreign signer, reversed digest, wrong subscript); the library must accept exactly when an independent verifier (reference secp256k1 + reference preimage for the flag in each signature) does.",
+  note="Trusted: refimpl::secp, refimpl::sighash, refimpl::codec (strict DER), refimpl::hashes. Code separators only at the top level of the locking script; high-S variants not generated.",
+  ref="DESIGN.md §3 C15"),
+ "C16": dict(
+  technique="property-based testing / fuzz-style opcode soup (proptest) under process supervision: totality, step bound, stepping-vs-run metamorphic relation, state preservation after errors",
+  text="Tens of thousands of adversarial programs per run over every opcode value (incl. bare structural opcodes built through from_script_bits), hostile operands, signature-shaped pushes, coinbase elements and interpreters built from transaction inputs; each is stepped to the end and run to completion in supervised child processes. Violations are panics (caught), process death (journal attribution), more steps than elements, run/step disagreement, or stacks that changed on an erroring step.",
+  note="Trusted: the harness' step accounting. Computed-size allocations (CAT/MUL/NUM2BIN growth) are capped and counted, as DESIGN §2.11 states. Nesting depth <= 300 (the library's execution cost is cubic in the depth).",
+  ref="DESIGN.md §3 C16"),
+
 
  "C20": dict(
   technique="property-based testing (proptest) plus exhaustive enumeration over lengths, differential against a FIPS-197 reference cipher; round-trip and rejection oracles",
